@@ -1,89 +1,129 @@
 (* C14 Fast-sync trust.  Statements only; every proof is `exact <term>`.
 
-   The property ("a catching-up node never resets to a block whose signatures come exclusively
-   from keys outside every validator set the node has reason to trust") is FALSE of the unchanged
-   code: core.fastForward checks the block against peers.NewPeerSet(frame.Peers) -- the validator
-   set declared by the RESPONSE -- and nothing the node knows takes part in the decision
-   (C14_decision_ignores_node_state).  C14_no_strangers_refuted: a fresh node configured with the
-   honest set {0,1,2,3} adopts the one-member set {4} shipped and signed by key 4 (witness
-   w_forged, harness/cmd/ff kinds forged.*; oracle class stranger-set-adopted).
-   The property is proved for the repaired rule (ff_decide_fixed), which counts a signer only if
-   it belongs to a set the node already knows (configured peers, genesis peers, current validators,
-   the peer sets of its store). *)
+   The tree implements the repaired rule (/repo a41e4c4: core.checkFastForward counts only signers of
+   c.peers, c.genesisPeers, c.validators or a peer set of the store; 52c591c: checked before
+   proxy.Restore): part 1 states the property for it, and exactly what it costs in liveness.
+   Part 2 keeps the refutations of the rule before a41e4c4 as regression witnesses (replayed by
+   harness/cmd/ff kinds forged.* on every run; oracle classes stranger-set-adopted,
+   stranger-endorsed-adopted, accepted-without-known-quorum). *)
 From Coq Require Import ZArith List Bool.
 From V Require Import Model.Quorum Model.FastSync Model.FastSyncWitness Proofs.FastSyncProofs.
 Import ListNotations.
 Open Scope Z_scope.
 
-(** * The unchanged code *)
+(** * 1. The rule the tree implements *)
 
-(* whatever the node's state (configured peers, validators, store), the decision is the same *)
-Theorem C14_decision_ignores_node_state : forall st1 st2 b f,
-  fst (core_ff st1 b f) = fst (core_ff st2 b f).
-Proof. exact core_ff_state_blind. Qed.
-Print Assumptions C14_decision_ignores_node_state.
-
-(* full statement (no_strangers_statement): if no verifying entry comes from a key of a known set,
-   the response is not adopted.  Refuted for the code (the known sets are not even an input). *)
-Theorem C14_no_strangers_refuted : ~ no_strangers_statement (fun _ => ff_decide).
-Proof. exact no_strangers_refuted. Qed.
-Print Assumptions C14_no_strangers_refuted.
-
-(* node level: honest answers plus ONE forged answer with a higher block index: the forged one is
-   chosen (highest index wins), the application is restored from the forger's snapshot and the
-   validator set becomes {4}; no signer is known to the node *)
-Theorem C14_single_peer_takeover_refuted : exists ns',
-  node_ff w_ns0 [Some (mkResp w_good_block w_frame4 0); Some w_forged; Some (mkResp w_good_block w_frame4 0)]
-    = (Some FFOk, ns') /\
-  cs_validators (ns_core ns') = [mkFPeer 4 0] /\ ns_app ns' = [2] /\
-  (forall s, In s (fb_sigs w_forged_block) -> in_known w_known (se_bytes s) = false).
-Proof. exact stranger_adopted_node. Qed.
-Print Assumptions C14_single_peer_takeover_refuted.
-
-(** * The repaired rule *)
-
-Theorem C14_no_strangers_fixed : no_strangers_statement ff_decide_fixed.
+(* THE PROPERTY (no_strangers_statement): if no verifying signature comes from a key of a set the
+   node knows, the response is not adopted *)
+Theorem C14_no_strangers : no_strangers_statement ff_decide_fixed.
 Proof. exact strangers_refused_fixed_statement. Qed.
-Print Assumptions C14_no_strangers_fixed.
+Print Assumptions C14_no_strangers.
 
-(* boolean form: an adopted response has a verifying signature by a member the node already knows *)
-Theorem C14_no_strangers : forall known b f,
+(* boolean form, exhibiting the known signer *)
+Theorem C14_no_strangers_bool : forall known b f,
   accept_fixed known b f = true ->
   exists s, In s (fb_sigs b) /\ se_verif s = 1 /\ member (ff_peers f) (se_bytes s) = true /\
             in_known known (se_bytes s) = true.
 Proof. exact accept_fixed_known_signer_bool. Qed.
-Print Assumptions C14_no_strangers.
+Print Assumptions C14_no_strangers_bool.
 
 (* more precisely: an adopted response carries verifying signatures of more than TrustCount
    DISTINCT members of the declared set that the node already knows *)
-Theorem C14_known_quorum_fixed : forall known b f,
+Theorem C14_known_quorum : forall known b f,
   ff_decide_fixed known b f = FFOk ->
   exists signers, NoDup signers /\
     (forall v, In v signers -> in_known known v = true /\ member (ff_peers f) v = true /\
                exists s, In s (fb_sigs b) /\ se_bytes s = v /\ se_verif s = 1) /\
     fs_tc (ff_peers f) < Z.of_nat (length signers).
 Proof. exact accept_fixed_known_quorum. Qed.
-Print Assumptions C14_known_quorum_fixed.
+Print Assumptions C14_known_quorum.
 
-(* same at node level: the application is restored only after that check (C12_restore_only_checked_fixed) *)
-Theorem C14_node_fixed_refuses_strangers : forall known ns l x,
+(* node level: whatever the other peers answer, if the chosen (highest-index) response is endorsed
+   only by strangers it is refused, and core, application and node state are untouched *)
+Theorem C14_node_refuses_strangers : forall known ns l x,
   best_response l = Some x ->
   (forall s, In s (fb_sigs (r_block x)) -> se_verif s = 1 -> in_known known (se_bytes s) = false) ->
   exists r, node_ff_fixed known ns l = (Some r, ns) /\ r <> FFOk.
 Proof. exact node_fixed_refuses_strangers. Qed.
-Print Assumptions C14_node_fixed_refuses_strangers.
+Print Assumptions C14_node_refuses_strangers.
 
-(** * Non-vacuity and the limit of the repair *)
+(* LIVENESS, exactly.  The rule adopts iff digests match, Reset succeeds and more than TrustCount
+   distinct members known to the node have a verifying entry ... *)
+Theorem C14_accept_iff : forall known b f,
+  existsb (verify_panics_fixed known (ff_peers f)) (fb_sigs b) = false ->
+  (ff_decide_fixed known b f = FFOk <->
+   fb_peers_hash b = Some (peers_digest (ff_peers f)) /\
+   fb_frame_hash b = ff_hash f /\
+   ff_reset f = 1 /\
+   fs_tc (ff_peers f) < Z.of_nat (length (valid_signers_fixed known (ff_peers f) (fb_sigs b)))).
+Proof. exact ff_decide_fixed_iff. Qed.
+Print Assumptions C14_accept_iff.
 
-(* the forged responses are refused by the repaired rule, the honest one adopted; a validator the
-   node KNOWS can still declare the set {itself} (outside C14's quantifier: the signer is known;
-   requiring more than a third of a known SET instead is discussed in FINDINGS.md) *)
+(* ... so an HONEST response (consistent digests, insertable frame, every entry a verifying signature
+   of a distinct member) is adopted if and only if more than TrustCount of its signers belong to a
+   set the node already knows.  A node restarted with a stale peers.json after validator changes may
+   therefore have to wait for an anchor block signed by enough validators it knows, or be given the
+   current peers.json (FINDINGS.md F3, harness statistic honest-response:<victim>:known-signers...) *)
+Theorem C14_honest_accept_iff : forall known b f,
+  honest_response b f ->
+  (ff_decide_fixed known b f = FFOk <->
+   fs_tc (ff_peers f) < Z.of_nat (length (filter (in_known known) (map se_bytes (fb_sigs b))))).
+Proof. exact honest_accept_iff. Qed.
+Print Assumptions C14_honest_accept_iff.
+
+(* in particular a node that knows every signer adopts every honest, sufficiently signed response *)
+Theorem C14_honest_accept_all_known : forall known b f,
+  honest_response b f ->
+  (forall s, In s (fb_sigs b) -> in_known known (se_bytes s) = true) ->
+  fs_tc (ff_peers f) < Z.of_nat (length (fb_sigs b)) ->
+  ff_decide_fixed known b f = FFOk.
+Proof. exact honest_accept_all_known. Qed.
+Print Assumptions C14_honest_accept_all_known.
+
+(** * 2. Regression witnesses: the rule before a41e4c4 *)
+
+(* whatever the node's state (configured peers, validators, store), the decision was the same *)
+Theorem C14_old_rule_ignores_node_state : forall st1 st2 b f,
+  fst (core_ff st1 b f) = fst (core_ff st2 b f).
+Proof. exact core_ff_state_blind. Qed.
+Print Assumptions C14_old_rule_ignores_node_state.
+
+(* it checked the block against NewPeerSet(frame.Peers), the set declared by the response: a fresh node
+   configured with {0,1,2,3} adopted the one-member set {4} shipped and signed by key 4 (witness
+   w_forged; harness kinds forged.*; oracle class stranger-set-adopted) *)
+Theorem C14_old_rule_adopts_strangers : ~ no_strangers_statement (fun _ => ff_decide).
+Proof. exact no_strangers_refuted. Qed.
+Print Assumptions C14_old_rule_adopts_strangers.
+
+(* node level: honest answers plus ONE forged answer with a higher block index: the forged one was
+   chosen, the application restored from the forger's snapshot, the validator set replaced by {4} *)
+Theorem C14_old_rule_single_peer_takeover : exists ns',
+  node_ff w_ns0 [Some (mkResp w_good_block w_frame4 0); Some w_forged; Some (mkResp w_good_block w_frame4 0)]
+    = (Some FFOk, ns') /\
+  cs_validators (ns_core ns') = [mkFPeer 4 0] /\ ns_app ns' = [2] /\
+  (forall s, In s (fb_sigs w_forged_block) -> in_known w_known (se_bytes s) = false).
+Proof. exact stranger_adopted_node. Qed.
+Print Assumptions C14_old_rule_single_peer_takeover.
+
+(** * Non-vacuity, the liveness example, and the limit of the repair *)
+
+(* the forged response is refused (also when it competes with honest answers), the honest one adopted;
+   after a join {0,1,2,3} -> {0,1,2,3,4} an honest anchor block signed by {2,3,4} is refused by a node
+   that only knows the genesis set (2 known signers <= TrustCount 2) and adopted with the current
+   peers.json; a validator the node KNOWS can still declare the set {itself} (outside C14's
+   quantifier: the signer is known; FINDINGS.md F3 residual) *)
 Example C14_example :
-  ff_decide w_forged_block w_forged_frame = FFOk /\
   ff_decide_fixed w_known w_forged_block w_forged_frame = FFNotEnoughSigs /\
   ff_decide_fixed w_known w_good_block w_frame4 = FFOk /\
-  fst (node_ff_fixed w_known w_ns0
-         [Some (mkResp w_good_block w_frame4 0); Some w_forged; Some (mkResp w_good_block w_frame4 0)])
-    = Some FFNotEnoughSigs /\
+  node_ff_fixed w_known w_ns0
+      [Some (mkResp w_good_block w_frame4 0); Some w_forged; Some (mkResp w_good_block w_frame4 0)]
+    = (Some FFNotEnoughSigs, w_ns0) /\
   ff_decide_fixed w_known w_insider_block w_insider_frame = FFOk.
 Proof. vm_compute. repeat split; reflexivity. Qed.
+
+Example C14_liveness_example :
+  honest_response w_block5 w_frame5 /\
+  ff_decide_fixed [[0; 1; 2; 3]] w_block5 w_frame5 = FFNotEnoughSigs /\
+  ff_decide_fixed [[0; 1; 2; 3; 4]; [0; 1; 2; 3]] w_block5 w_frame5 = FFOk /\
+  cs_validators (snd (core_ff_fixed [[0; 1; 2; 3; 4]] w_core0 w_block5 w_frame5)) = w_set5.
+Proof. exact liveness_example. Qed.
